@@ -227,7 +227,8 @@ def check_units(tier, only):
         replayer.close()
     disagreements, checked = [], 0
     for (a, b), r in fac.items():
-        for amount in ("0", "1", "7.5", "0@comma", "1@comma", "7.5@comma"):     # @comma: the default configuration (',' decimal separator)
+        # @comma: the default configuration (',' decimal separator); @switched: one calculator used under '.' decimal first, then switched to ','
+        for amount in ("0", "1", "7.5", "0@comma", "1@comma", "7.5@comma", "1@switched", "7.5@switched"):
             got = table.get((a, b, amount), "missing")
             if got == "missing":
                 continue
